@@ -57,11 +57,35 @@ inline MobilizedBody addMobod(int type, MobilizedBody& parent, const Transform& 
     }
 }
 
+// mobilizer with explicit options: Screw [pitch]; Ellipsoid [a b c]; SphericalCoords [az0 sAz ze0 sZe axisIsX sR] (negative = negated)
+inline MobilizedBody addMobodPar(int type, MobilizedBody& parent, const Transform& xp, const Body& b, const Transform& xb, bool rev,
+                                 const std::vector<Real>& par) {
+    MobilizedBody::Direction d = rev ? MobilizedBody::Reverse : MobilizedBody::Forward;
+    switch (type) {
+    case 11: return MobilizedBody::Screw(parent, xp, b, xb, par[0], d);
+    case 12: return MobilizedBody::Ellipsoid(parent, xp, b, xb, Vec3(par[0], par[1], par[2]), d);
+    case 15: return MobilizedBody::SphericalCoords(parent, xp, b, xb, par[0], par[1] < 0, par[2], par[3] < 0,
+                                                   par[4] > 0 ? CoordinateAxis(XAxis) : CoordinateAxis(ZAxis), par[5] < 0, d);
+    default: return addMobod(type, parent, xp, b, xb, rev);
+    }
+}
+// the options addMobod() uses
+inline std::vector<Real> defaultPars(int type) {
+    std::vector<Real> p;
+    if (type == 11) p.push_back(0.3);
+    else if (type == 12) { p.push_back(0.5); p.push_back(0.7); p.push_back(0.9); }
+    else if (type == 15) { Real d[6] = {0.0, 1.0, 0.0, 1.0, -1.0, 1.0}; p.assign(d, d + 6); }
+    return p;
+}
+
 struct RandSystem {
     MultibodySystem sys; SimbodyMatterSubsystem matter; GeneralForceSubsystem forces;
     std::vector<int> types; std::vector<bool> revs; bool euler;
+    // per body (in creation order) the mobilizer options used; optRng != 0 makes build() draw non-default options for half of the
+    // Screw / Ellipsoid / SphericalCoords mobilizers from that separate stream (the main stream is consumed exactly as without it)
+    std::vector<std::vector<Real> > pars; Rng* optRng;
     State state;
-    RandSystem() : matter(sys), forces(sys), euler(false) {}
+    RandSystem() : matter(sys), forces(sys), euler(false), optRng(0) {}
     // nb bodies (besides Ground); shape: 0 chain, 1 star, 2 random branching
     // reloc (optional): rigid transform applied to every Ground-attached inboard frame (relocates the whole model)
     void build(Rng& r, int nb, int shape, int onlyType = -1, const Transform* reloc = 0, int forceEuler = -1) {
@@ -83,8 +107,16 @@ struct RandSystem {
             else if (special <= 3) { xpf = Transform(xpf.p()); xbm = Transform(xbm.p()); }
             MobilizedBody& parent = matter.updMobilizedBody(MobilizedBodyIndex(p));
             if (reloc && p == 0) xpf = (*reloc) * xpf;
-            addMobod(ty, parent, xpf, body, xbm, rev);
-            types.push_back(ty); revs.push_back(rev);
+            std::vector<Real> par = defaultPars(ty);
+            if (optRng && !par.empty() && optRng->I(0, 1)) {
+                Rng& o = *optRng;
+                if (ty == 11) par[0] = o.U(0.1, 0.8) * (o.I(0, 1) ? 1 : -1);
+                else if (ty == 12) for (int c = 0; c < 3; ++c) par[c] = o.U(0.3, 1.3);
+                else if (ty == 15) { par[0] = o.U(-1, 1); par[1] = o.I(0, 1) ? 1 : -1; par[2] = o.U(-0.4, 0.4); par[3] = o.I(0, 1) ? 1 : -1;
+                                     par[4] = o.I(0, 1) ? 1 : -1; par[5] = o.I(0, 1) ? 1 : -1; }
+            }
+            if (par == defaultPars(ty)) addMobod(ty, parent, xpf, body, xbm, rev); else addMobodPar(ty, parent, xpf, body, xbm, rev, par);
+            types.push_back(ty); revs.push_back(rev); pars.push_back(par);
         }
         state = sys.realizeTopology();
         matter.setUseEulerAngles(state, euler);
